@@ -1127,7 +1127,7 @@ func ruleLIT5(p *Program) *RuleResult {
 	if len(r.Obs) == 0 {
 		r.ok("system|no-float-detour", fmt.Sprintf("none of the %d shopspring/decimal calls in the System value layer (outside the To*Float* helpers) converts through float64", r.Analysed["decimal_calls"]), "fhirpath/system", "call inventory of package system", true)
 	}
-	r.floor("decimal_calls", 20)
+	r.floor("decimal_calls", 10)
 	return r
 }
 
